@@ -118,7 +118,7 @@ def pure_forward(ctx, model, x, sig, detail):
     ctx.count("purity_checks")
     g0 = registries()
     s0 = fp.state_fp(model)
-    xb = fp.plain_bytes(x)
+    xb = fp.tensor_fp(x)
     # every submodule must leave the tensors it is given untouched (a layer that scales its input in place corrupts
     # whatever else reads that tensor afterwards)
     held, dirty = {}, []
@@ -151,7 +151,7 @@ def pure_forward(ctx, model, x, sig, detail):
     if g1 != g0:
         ctx.violation(dict(sig, kind="inference_changed_global_state", what="+".join(k for k in g0 if g0[k] != g1.get(k))[:60]),
                       detail)
-    if fp.plain_bytes(x) != xb:
+    if fp.tensor_fp(x) != xb:
         ctx.violation(dict(sig, kind="inference_modified_its_input"), detail)
     if s1 != s0:
         ctx.violation(dict(sig, kind="inference_changed_model_state"), dict(detail, changed=fp.diff(s0, s1)[:6]))
@@ -353,9 +353,17 @@ def glue_models(ctx, oq, r, wd, aq, sig0, desc):
     # the very first inference after calibration is the one compared with the calibrated state: a corruption that is
     # idempotent (a scale overwritten by the same value on every forward) would be invisible afterwards
     for j in range(2):
+        xin = lifecycle.batch(r, (int(r.integers(2, 6)), 16), wd)
+        if r.random() < 0.4:
+            # an already quantized input (what the previous block of a larger model would hand over): it is the caller's
+            # tensor, so neither its codes nor its scale may change
+            qin = ["qint8", "qfloat8_e4m3fn", "qfloat8_e5m2"][int(r.integers(3))]
+            qmax = 127.0 if qin == "qint8" else float(torch.finfo(oq.qtypes[qin].dtype).max)
+            xin = oq.quantize_activation(xin, oq.qtypes[qin], (xin.abs().max().to(torch.float64) / qmax).clamp(min=1e-6).to(wd))
+            ctx.count("quantized_model_inputs")
+            sig = dict(sig, input="quantized")
         try:
-            pure_forward(ctx, m, lifecycle.batch(r, (int(r.integers(2, 6)), 16), wd), sig,
-                         dict(desc=desc, ops=ops, k=k, weights=wq))
+            pure_forward(ctx, m, xin, sig, dict(desc=desc, ops=ops, k=k, weights=wq))
         except Exception as e:
             ctx.count("glue_models_refused")
             ctx.see("glue_refusals", f"{'+'.join(ops)}:{type(e).__name__}", cap=200)
